@@ -147,7 +147,10 @@ func (o vC18Op) apply(b *BlockList) int {
 // folding must leave alone
 var vC18Labels = []string{"example", "notexample", "exampl", "examplee", "ex-ample", "com", "org", "net", "co", "uk",
 	"a", "b", "www", "ads", "x1", "sub", "m", "com-x", "tracker", "cdn",
-	"zone", "quiz", "az", "jazz", "z", "adzone", "a[b", "x`y", "q{r", `y\@z`, "fghijklmnopqrstuvwxyz"}
+	"zone", "quiz", "az", "jazz", "z", "adzone", "a[b", "x`y", "q{r", `y\@z`, "fghijklmnopqrstuvwxyz",
+	// labels with an escaped backslash: as the last byte (the dot after it is a separator), as the
+	// first, and in front of an escaped dot (decoder's spelling of the labels  w\  \q  e\.f)
+	`w\\`, `\\q`, `e\\\.f`}
 
 func vC18Name(r *rand.Rand) string {
 	n := 1 + r.Intn(4)
@@ -1196,14 +1199,18 @@ func vC18CaseEscDot(t *testing.T, r *rand.Rand, out *vC18Out) {
 	inner := vC18Labels[r.Intn(len(vC18Labels))]
 	entry := inner + "." + base // e.g. b.example.com.
 	lbl := vC18Labels[r.Intn(len(vC18Labels))]
-	query := lbl + `\.` + entry // label "a.b" under example.com.
+	// how the escaped label ends: "\." a dot INSIDE the label; "\\." the label ends in a backslash and
+	// the dot is a separator (the query is a genuine child of entry); "\\\." backslash + dot inside;
+	// "\\\\." two backslashes, then a separator; "\.\\." a dot and a backslash, then a separator
+	sep := []string{`\.`, `\.`, `\\.`, `\\.`, `\\\.`, `\\\\.`, `\.\\.`}[r.Intn(7)]
+	query := lbl + sep + entry // e.g. label "a.b" under example.com., or label "a\" under b.example.com.
 	mode := r.Intn(4)
 	switch mode {
 	case 0:
 		cfg.Blocklist = []string{entry}
 	case 1:
 		cfg.Blocklist = []string{"*." + entry}
-		query = lbl + `\.x.` + entry // label "a.x" directly under entry: a genuine subdomain
+		query = lbl + sep + "x." + entry // label "a.x" directly under entry: a genuine subdomain
 	case 2:
 		cfg.Blocklist = []string{query} // the escaped name itself is listed
 	default:
@@ -1774,6 +1781,80 @@ func vC18CaseWhitespace(t *testing.T, r *rand.Rand, out *vC18Out, pos int, space
 	if present {
 		vC18EmitReload(r, out, "reload-whitespace", dir, cfg.Whitelist, m1, wild1, "")
 	}
+}
+
+// A background refresh (what refreshRemote does once its timer and downloads are over:
+// readLists(true)) landing INSIDE a save — between persist()'s CreateTemp and its Rename, when the
+// temp file of the save in flight lies in the directory. No source hook: the list is made big
+// enough for the save to take a while (one write per entry), the driver watches the directory for
+// the temp file, walks at once, and then verifies through saveMu that the save was still in flight
+// when the walk ended; an attempt whose overlap cannot be verified is repeated with another key
+// (never after a verified one: a later save would repair the file), and nothing is emitted when
+// none succeeds. Oracle: every call has returned — `local` is the memory (CaseConc).
+func vC18CaseRefreshInflight(t *testing.T, out *vC18Out, n, attempts int, remove bool) {
+	dir := vC18Dir(t)
+	cfg := &config.Config{Nullroute: "0.0.0.0", Nullroutev6: "::0", BlockListDir: dir}
+	b := vC18NewQuiet(cfg)
+	bulk := make([]string, n)
+	for i := range bulk {
+		bulk[i] = fmt.Sprintf("k%04d.bulk.test.", i)
+	}
+	ops := []vC18Op{{"setbatch", bulk}}
+	if b.SetBatch(bulk) != n {
+		t.Fatalf("refresh-inflight: bulk SetBatch refused keys")
+	}
+	verified := false
+	for a := 0; a < attempts && !verified; a++ {
+		op := vC18Op{"set", []string{fmt.Sprintf("late%d.bulk.test.", a)}}
+		if remove { // a removal whose save is walked over: the entry would come back at the next start
+			op = vC18Op{"remove", []string{bulk[(a*7+3)%n]}}
+		}
+		ops = append(ops, op)
+		done := make(chan int, 1)
+		go func() { done <- op.apply(b) }()
+		seen := false
+	watch:
+		for spins := 0; spins < 2000000; spins++ {
+			select {
+			case r := <-done:
+				done <- r
+				break watch
+			default:
+			}
+			if ents, err := os.ReadDir(dir); err == nil {
+				for _, e := range ents {
+					if strings.HasPrefix(e.Name(), "local.tmp.") {
+						seen = true
+						break watch
+					}
+				}
+			}
+		}
+		if seen {
+			_ = b.readLists(true)
+			if b.saveMu.TryLock() {
+				b.saveMu.Unlock() // the save was over before the walk ended: no verified overlap
+			} else {
+				verified = true
+			}
+		}
+		if <-done != 1 {
+			t.Fatalf("refresh-inflight: late call refused")
+		}
+	}
+	if !verified {
+		return
+	}
+	m1, wild1, w := vC18Dump(b)
+	present, file := vC18ReadLocal(dir)
+	var cops []string
+	for _, op := range ops {
+		cops = append(cops, op.coq())
+	}
+	out.emit("refresh-inflight", fmt.Sprintf("CaseConc [] [] %s [[%s]] %s %s %s", vC18List(w), strings.Join(cops, "; "),
+		vC18List(m1), vC18List(wild1), vC18OptStr(present, file)),
+		map[string]any{"bulk_keys": n, "late_calls": len(ops) - 1, "late_call": ops[len(ops)-1], "what": "readLists(true) walked the directory while the last Set's persist() had its temp file there (verified: saveMu still held after the walk)",
+			"entries_in_memory": len(m1), "file_present": present, "file_bytes": len(file)}, true, "", "")
 }
 
 func vC18CaseConc(t *testing.T, r *rand.Rand, out *vC18Out) {
@@ -3294,6 +3375,17 @@ func TestVerifC18(t *testing.T) {
 	// and the white-space sweep: the whole class at the three positions, and its neighbours once
 	for i, fr := 0, rand.New(rand.NewSource(1812)); i < 4; i++ {
 		vC18CaseWhitespace(t, fr, out, i%3, i < 3)
+	}
+	// a refresh walking the directory while a save is in flight (its temp file lies there)
+	if n >= 100 {
+		bulkN := vC18EnvInt("VERIF_C18_BULK", 400)
+		vC18CaseRefreshInflight(t, out, bulkN, 12, false)
+		vC18CaseRefreshInflight(t, out, bulkN*3/4, 12, true)
+		vC18CaseRefreshInflight(t, out, bulkN/2, 12, false)
+		if os.Getenv("VERIF_TIER") == "thorough" {
+			vC18CaseRefreshInflight(t, out, 2*bulkN, 6, true)
+			vC18CaseRefreshInflight(t, out, 2*bulkN, 6, false)
+		}
 	}
 	// random histories with refreshes that bring remote lists (side by side, about two seconds)
 	nrh := 8
